@@ -352,6 +352,14 @@ func snapshot(ms map[string]member) J {
 	return out
 }
 
+func healthyList(ms []*mem) []bool {
+	out := []bool{}
+	for _, m := range ms {
+		out = append(out, m.healthy)
+	}
+	return out
+}
+
 func main() {
 	seed := flag.Int64("seed", 1, "seed")
 	n := flag.Int("n", 300, "scenarios")
@@ -445,7 +453,7 @@ func main() {
 		results := []string{}
 		_, herr := s.Run(func() {
 			var wg sync.WaitGroup
-			for i := 0; i < 3; i++ {
+			for i := 0; i < 4; i++ {
 				wg.Add(1)
 				go func(i int) {
 					defer wg.Done()
@@ -500,23 +508,37 @@ func main() {
 		w.Emit(trace.M("ev", "conc", "ok", okAll, "what", what))
 	}
 	// ---- concurrent part 2: concurrent requests on a failover group with one failing member
-	for cs := 1; cs <= *conc; cs++ {
+	for cs := 1; cs <= 8**conc; cs++ { // these scenarios are cheap (about a millisecond each)
 		s := sched.New(&sched.Random{R: rand.New(rand.NewSource(*seed*137 + int64(cs)))}, map[string]sched.Kind{})
 		ms := []*mem{}
 		var stores []desync.Store
-		nm := 2 + r.Intn(2)
+		nm := 2 + r.Intn(3)
 		bad := r.Intn(nm)
+		onlyHealthy := -1 // every second scenario: all members but one are failing
+		if cs%2 == 0 {
+			nm = 3 + r.Intn(2)
+			onlyHealthy = r.Intn(nm)
+			if r.Intn(10) < 6 {
+				onlyHealthy = nm - 1 // the longest way round
+			}
+		}
 		for i := 0; i < nm; i++ {
-			m := &mem{n: fmt.Sprintf("f%d", i+1), c: map[int]string{1: "good", 2: "good", 3: "absent"}, healthy: i != bad, verify: true, hook: s.Hook}
+			healthy := i != bad
+			if onlyHealthy >= 0 {
+				healthy = i == onlyHealthy
+			}
+			m := &mem{n: fmt.Sprintf("f%d", i+1), c: map[int]string{1: "good", 2: "good", 3: "absent"}, healthy: healthy, verify: true, hook: s.Hook}
 			ms = append(ms, m)
 			stores = append(stores, m)
 		}
 		fg := desync.NewFailoverGroup(stores...)
 		var mu sync.Mutex
 		okAll, what := true, "failover: requests succeed while one member stays healthy, missing stays missing"
+		s.FailoverSteps = true
+		desync.VerifHook = s.Hook
 		_, herr := s.Run(func() {
 			var wg sync.WaitGroup
-			for i := 0; i < 3; i++ {
+			for i := 0; i < 4; i++ {
 				wg.Add(1)
 				go func(i int) {
 					defer wg.Done()
@@ -535,7 +557,7 @@ func main() {
 						// only if those attempts all hit failing members; with exactly one failing member that cannot happen
 						if res != want {
 							okAll = false
-							what = fmt.Sprintf("failover group with %d members (one failing) answered %s for a chunk whose healthy members answer %s", nm, res, want)
+							what = fmt.Sprintf("failover group with %d members (healthy: %v) answered %s for a chunk whose healthy members answer %s", nm, healthyList(ms), res, want)
 						}
 						mu.Unlock()
 					}
@@ -544,6 +566,7 @@ func main() {
 			}
 			wg.Wait()
 		})
+		desync.VerifHook = nil
 		if herr != nil {
 			okAll, what = false, "concurrent failover requests did not finish"
 		}
@@ -555,5 +578,5 @@ func main() {
 		fmt.Fprintln(os.Stderr, err)
 		os.Exit(2)
 	}
-	fmt.Printf("scenarios=%d concurrent=%d events=%d\n", *n, 2**conc, w.N)
+	fmt.Printf("scenarios=%d concurrent=%d events=%d\n", *n, 9**conc, w.N)
 }
